@@ -277,12 +277,21 @@ def same_as_ref(p, ref):
 # --------------------------------------------------------------------------
 # generators
 # --------------------------------------------------------------------------
+HISTORY = {}      # id(position reached by play) -> the moves that produced it from the initial position (for replays)
+
+
+def history_of(p):
+    h = HISTORY.get(id(p))
+    return None if h is None or h[0] is not p else h[1]
+
+
 def playout_positions(rng, size, n_games, per_game):
     import tak
     out = []
     for _ in range(n_games):
         p = tak.Position.from_config(tak.Config(size=size))
         seen = [p]
+        hist = []
         for _ply in range(rng.randint(2, 12 * size)):
             ms = p.all_moves()
             rng.shuffle(ms)
@@ -295,8 +304,10 @@ def playout_positions(rng, size, n_games, per_game):
                     continue
             if nxt is None:
                 break
+            hist.append(takio.j_move(m))
             p = nxt
             seen.append(p)
+            HISTORY[id(p)] = (p, list(hist))
             if p.winner()[0] is not None:
                 break
         k = min(per_game, len(seen))
@@ -583,6 +594,10 @@ def _cases_fmt(run, positions):
         why = oracle_position(p, t, o)
         if why:
             direct.append((p, origin, why, key))
+        else:
+            eq = oracle_equal(p, o)
+            if eq:                      # key None: stands without confirmation by the model (see oracle_equal)
+                direct.append((p, origin, eq, None))
         cs.add(f"({c_pos(p)}, {cstr(t)}, {c_obs(o)})",
                {"key": key, "kind": "fmt", "origin": origin, "position": takio.j_pos(p), "impl_text": t, "impl_parse": j_obs(o)})
         d = f"size{p.size}/{origin}"
@@ -719,8 +734,13 @@ def correspondence(run):
     confirmed, over = _split_hits(direct, failing, shard_fail)
     overdemand += [{"kind": "fmt", "position": takio.j_pos(h[0]), "oracle": h[2]} for h in over]
     for p, origin, why, _k in confirmed[:lim]:
-        run.violation(_key("fmt-direct", str(takio.j_pos(p))), {"clause": "formatting a position and parsing it back gives an equal position",
-                                                                "kind": "fmt", "input": {"position": takio.j_pos(p), "origin": origin}, "observed": why})
+        tag = "fmt-eq" if isinstance(why, dict) else "fmt-direct"
+        run.violation(_key(tag, str(takio.j_pos(p))), {"clause": "formatting a position and parsing it back gives an equal position",
+                                                       "kind": "fmt", "input": {"position": takio.j_pos(p), "origin": origin, "history": history_of(p),
+                                                                                "stones_container": type(p.stones).__name__},
+                                                       "observed": why})
+    run.extra["round_trip_equal_by_python_eq"] = {"positions_compared": len(positions),
+                                                  "not_equal": sum(1 for h in direct if isinstance(h[2], dict))}
 
     n_grammar = 300 if run.quick else 20000
     with memory_guard():
@@ -819,9 +839,42 @@ def oracle_position(p, t=None, o=None):
     q = o[1]
     if board_of(q) != board_of(p) or q.ply != p.ply or q.size != p.size:
         return "parse_tps(format_tps(p)) differs from p (board / side to move / move number)"
-    if [[x.stones, x.caps] for x in p.stones] == std_reserves(p.size, board_of(p)) and q != p:
+    if [[x.stones, x.caps] for x in p.stones] == std_reserves(p.size, board_of(p)) and \
+            [[x.stones, x.caps] for x in q.stones] != [[x.stones, x.caps] for x in p.stones]:
         return "reserves not restored for a standard piece set"
     return None
+
+
+def _tyname(v):
+    if isinstance(v, (list, tuple)):
+        inner = sorted({type(x).__name__ for x in v})
+        return f"{type(v).__name__}[{', '.join(inner)}]"
+    return type(v).__name__
+
+
+def oracle_equal(p, o):
+    """"formatting a position and parsing it back gives an EQUAL position" in the API's own sense: Python's == on the
+    Position objects (standard piece sets only).  This is beyond the Coq model, which has one representation of a
+    position; a hit is therefore reported without asking the model.  -> None or a dict naming the differing fields
+    with the Python types on both sides."""
+    if o[0] != "acc":
+        return None                                      # oracle_position's business
+    q = o[1]
+    if [[x.stones, x.caps] for x in p.stones] != std_reserves(p.size, board_of(p)):
+        return None                                      # custom piece set: the text cannot carry it
+    try:
+        if q == p and not (q != p):
+            return None
+    except BaseException as e:  # noqa
+        return {"what": "round-trip-not-equal-by-==", "comparison_raised": type(e).__name__}
+    fields = []
+    for f in ("size", "stones", "ply", "board"):
+        a, b = getattr(p, f, None), getattr(q, f, None)
+        if not (a == b):
+            fields.append({"field": f, "original": _tyname(a), "parsed_back": _tyname(b),
+                           "values_equal_as_lists": (list(a) == list(b)) if isinstance(a, (list, tuple)) and isinstance(b, (list, tuple)) else False})
+    return {"what": "round-trip-not-equal-by-==", "differing_fields": fields,
+            "type_of_original": type(p).__name__, "type_of_parsed_back": type(q).__name__}
 
 
 def _model_confirms_text(run, s, o):
@@ -867,8 +920,21 @@ def _search(run, broken):
 
     found = False
     positions = _positions(run)
+    from tak.ptn import tps as _tps
     for p, origin in positions:
         why = oracle_position(p)
+        if not why:
+            try:
+                eq = oracle_equal(p, observe(_tps.format_tps(p)))
+            except BaseException:  # noqa
+                eq = None
+            if eq:
+                run.violation(_key("search-eq", str(takio.j_pos(p))), {"clause": "formatting a position and parsing it back gives an equal position",
+                                                                       "kind": "fmt", "input": {"position": takio.j_pos(p), "origin": origin, "history": history_of(p),
+                                                                                                "stones_container": type(p.stones).__name__},
+                                                                       "observed": eq})
+                found = True
+                break
         if why:
             cs, _, _, _, _ = _cases_fmt(run, [(p, origin)])
             failing, shard_fail, _ = cs.run() if len(cs) else ([1], [], 0)
@@ -906,11 +972,17 @@ def replay(run, rp):
     kind = rp.get("kind") or inp.get("kind")
     if kind == "fmt":
         p = takio.mk_pos(inp["position"])
+        if inp.get("history"):          # a position reached by play is rebuilt by play (its Python representation matters)
+            import tak
+            p = tak.Position.from_config(tak.Config(size=inp["position"]["size"]))
+            for jm in inp["history"]:
+                p = p.move(takio.mk_move(jm))
         why = oracle_position(p)
         cs, _, _, _, direct = _cases_fmt(run, [(p, inp.get("origin", "replay"))])
         failing, shard_fail, _ = cs.run()
+        eq = [h[2] for h in direct if isinstance(h[2], dict)]
         return {"violates": bool(why or failing or shard_fail or direct), "oracle": why, "model_disagrees": bool(failing),
-                "impl_text": cs.metas[0]["impl_text"] if cs.metas else None}
+                "not_equal_by_python_eq": eq[:1], "impl_text": cs.metas[0]["impl_text"] if cs.metas else None}
     cps = inp.get("text_codepoints")
     s = "".join(chr(c) for c in cps) if cps else inp.get("text", "")
     with memory_guard():
